@@ -173,15 +173,38 @@ def coq_project_refresh():
     return changed
 
 
+def _lib_targets():
+    out = []
+    d = os.path.join(COQ, 'Lib')
+    for f in sorted(os.listdir(d)):
+        if f.endswith('.v'):
+            out.append('Lib/' + f[:-2] + '.vo')
+    return out
+
+
 def coq_make(targets, timeout=1500, jobs=None):
     """Build targets (paths relative to coq/, e.g. 'C06/Props.vo').
-    Returns (ok, log_text)."""
+    The shared part (project files, Lib/) is built under a global lock; the
+    property's own files under a per-directory lock, so that checks of different
+    properties can build concurrently.  Returns (ok, log_text)."""
     jobs = jobs or NPROC
     with Lock(os.path.join(COQ, '.lock')):
         coq_project_refresh()
+        p = subprocess.run(['timeout', str(timeout), 'make', '-j%d' % jobs] + _lib_targets(), cwd=COQ,
+                           stdout=subprocess.PIPE, stderr=subprocess.STDOUT, text=True)
+        if p.returncode != 0:
+            return False, p.stdout
+    dirs = sorted(set(t.split('/')[0] for t in targets if '/' in t)) or ['all']
+    locks = [Lock(os.path.join(COQ, '.lock-' + d)) for d in dirs]
+    for l in locks:
+        l.__enter__()
+    try:
         cmd = ['timeout', str(timeout), 'make', '-j%d' % jobs] + list(targets)
         p = subprocess.run(cmd, cwd=COQ, stdout=subprocess.PIPE, stderr=subprocess.STDOUT, text=True)
         return p.returncode == 0, p.stdout
+    finally:
+        for l in reversed(locks):
+            l.__exit__()
 
 
 def coqc_file(path, timeout=600, extra=()):
